@@ -36,6 +36,10 @@ CHECKS = {
   "round-trip monitor: Read(Write(F)) compared field by field with F, all four formats, seeded fonts over the writable domain",
   "Generated fonts (1-300 glyphs, names over regular characters including bytes >= 0x80 and number/operator look-alikes, integer advance widths including vertical ones, well-formed contours with integer or fractional coordinates including every h/v-specialised curve shape and near misses of the writer's 1e-6 tests, stems, info strings over all byte values, FontMatrix and Private value classes, encodings absent / standard / subsets of standard / permutations / repeated and missing names / partial, creation times in several kinds of zone) are written in PFA, PFB, binary and no-eexec form and read back; glyph set, outlines (exact for all-integer glyphs, 0.005 otherwise), widths, stems, the name at each code, strings byte for byte, matrix, private values and creation instant are compared.",
   "Fonts contain .notdef; BlueScale within 2e-6 of the default is left to C10. Eight glyph names that the CharStrings idiom itself looks up (RD ND def end string exch readstring pop) are carried as known findings through pinned cases and kept out of the random generator."),
+ "C19": ("exploration", "DESIGN.md 11/C19",
+  "reference-model monitor: every query method compared with a direct re-computation from its definition over seeded font and metrics values",
+  "For generated type1.Font and afm.Metrics values (with and without .notdef, empty and closepath-only glyphs, boxes that are legitimately zero, encodings absent / partial / with repeated names / naming missing glyphs, axis-aligned font matrices with negative and non-uniform scales and translations) NumGlyphs, GlyphList (each glyph once, .notdef first, encoded glyphs in code order under a greedy feasibility check, the rest in byte-wise name order, length = count), Glyph.BBox, GlyphBBoxPDF, FontBBox, FontBBoxPDF, GlyphWidthPDF and WidthsMapPDF are evaluated for every present and several absent names and compared with an independent re-computation.",
+  "Matrix products are compared with 1e-9 relative tolerance. A box equal to [0 0 0 0] counts as empty, as the property defines."),
 }
 
 NOT_CLAIMED = {}
